@@ -33,6 +33,34 @@ check("C06", "model_checking",
       "thread), livelock by a horizon under a fairness rule",
       SCHED_NOTE, "stateless model checking (deviation-bounded DFS over a deterministic scheduler, real code)", "E1 vsched", "DESIGN.md C06")
 
+check("C07", "model_checking",
+      "same engine as C06; the oracle is on results: delivered objects are re-encoded and compared byte by byte with the objects "
+      "the input was assembled from (order, exactly once, null only after the last), written files must equal the reference "
+      "assembly, and every schedule must reproduce the observation of the default schedule (bound 1 on sessions of 1-4 objects, "
+      "bound 2 on 1-2/3 objects, static-priority/one-change family on sessions of 300 objects)",
+      SCHED_NOTE, "stateless model checking (deviation-bounded DFS over a deterministic scheduler, real code)", "E1 vsched", "DESIGN.md C07")
+check("C11", "model_checking",
+      "ThreadSanitizer's happens-before analysis on every explored schedule of read/write sessions (the scheduler's hand-offs are "
+      "invisible to it) and AddressSanitizer with post-release scheduling points, where an access after hand-over is a "
+      "deterministic use-after-free because the application scribbles over and frees each object at once; bounds 1 and 2",
+      SCHED_NOTE + "; TSan/ASan runtime correctness", "stateless model checking with sanitizer oracles (TSan + ASan under the scheduler)", "E1 vsched", "DESIGN.md C11")
+check("C12", "model_checking",
+      "invariant (decoded container bytes <= buffer + 3 containers + largest object; queue <= capacity; no allocation above the cap) "
+      "evaluated at every scheduling point of every explored schedule (bounds 1, 2), plus peak container bytes / live heap of "
+      "sessions over N0..8 N0 containers (beyond saturation) under the 6 static priority orders, which must not grow with N",
+      SCHED_NOTE + "; heap accounted by replaced operator new/delete", "stateless model checking with a state invariant + exhaustive static-schedule family", "E1 vsched", "DESIGN.md C12")
+check("C15", "model_checking",
+      "explicit-state breadth-first search over operation histories of the real UncompressedFile against a reference byte-queue "
+      "model: full alphabet to depth 6 (quick) / 8 (thorough), three usage-mode sub-alphabets to closure (arbitrarily long "
+      "sequences within 10-24 bytes); every transition runs the implementation",
+      "reference model written from the class documentation and test_UncompressedFile; behaviours the documentation leaves open are not demanded (listed in the evidence assumptions)",
+      "explicit-state model checking (BFS with canonical state, model/implementation lock-step)", "E2 seqx", "DESIGN.md C15")
+check("C16", "model_checking",
+      "sequential: BFS to closure over {write, read, setFileSize, abort, setBufferSize} on the real ObjectQueue against a reference "
+      "model (5-8 objects); concurrent: producer + consumer + third thread on the bare queue, every interleaving with preemption "
+      "bound 2 (unbounded free switches), deviation bound 3, and with no bound at all for n <= 2 (quick) / 3 (thorough)",
+      SCHED_NOTE, "explicit-state BFS + stateless model checking (preemption-bounded and unbounded)", "E1 vsched + E2 seqx", "DESIGN.md C16")
+
 
 def main():
     props = [json.loads(l)["id"] for l in open(os.path.join(VERIF, "properties.jsonl"))]
